@@ -20,7 +20,7 @@ RUN_PROFILES = {
                         imm=0.1, params=0.3, parloop_shapes="all", max_block=2, max_tasks=4),
     "junk": dict(junk=0.4, imm=0.1),
     # identifiers across junk events and repeated start() calls in the middle of a run
-    "ids_junk": dict(junk=0.35, imm=0.2, w={"count": 3, "parallel": 2, "call": 2, "service": 4}),
+    "ids_junk": dict(junk=0.45, imm=0.2, w={"count": 5, "while": 1, "parallel": 1, "call": 2, "service": 4}),
     "uuid": dict(test_ids=False, imm=0.2, w={"count": 3, "parallel": 2, "parloop": 1}),
     "uuid_loops_calls": dict(test_ids=False, imm=0.2, max_depth=4, max_tasks=4,
                              w={"count": 4, "while": 1, "call": 5, "service": 3, "parallel": 1, "cond": 1}),
@@ -64,10 +64,10 @@ PROPS = {
     "C03": dict(kind="run", proj="P_set", mon="mon_C03", property_files=("C02seq", "C03fork", "Refinement", "RefinementTransfer"),
                 profiles=["parallel", "parloop", "react"], quick=240, thorough=6000,
                 finding_profiles=["parloop_all"]),
-    "C04": dict(kind="run", proj="P_C04", mon="mon_C04ctx", property_files=("C04ctx", "Refinement", "RefinementTransfer"),
+    "C04": dict(kind="run", proj="P_C04", mon="mon_C04", property_files=("C04ctx", "C02seq", "C04decide", "Refinement", "RefinementTransfer"),
                 profiles=["cond", "default", "react_loops"], quick=240, thorough=6000,
                 finding_profiles=["parloop_all"]),
-    "C05": dict(kind="run", proj="P_seq", mon="mon_C02seq", property_files=("C02seq", "Refinement", "RefinementTransfer"),
+    "C05": dict(kind="run", proj="P_seq", mon="mon_C05", property_files=("C02seq", "C05iter", "Refinement", "RefinementTransfer"),
                 profiles=["loops", "react_loops"], quick=240, thorough=6000,
                 finding_profiles=["parloop_all", "parloop_mix"]),
     "C06": dict(kind="run", proj="P_set", mon="mon_C06", property_files=("C02seq", "C06inst"),
